@@ -284,9 +284,12 @@ class BaseGeo(BaseTransform):
     def _validate_style(self, val=None):
         val = {} if val is None else val
         style = self.style  # triggers style creation
+        if isinstance(val, self._style_class):
+            # the values of a style object are taken over, not the object itself
+            val = val.copy().as_dict()
         if isinstance(val, dict):
             style.update(val)
-        elif not isinstance(val, self._style_class):
+        else:
             raise ValueError(
                 f"Input parameter `style` must be of type {self._style_class}.\n"
                 f"Instead received type {type(val)}"
